@@ -476,7 +476,8 @@ def malformed_raws(rng, n, created=()):
     alpha = [b',', b'*', b':', b'-', b'g', b's', b't', b'c', b'1', b'2', b'0', b'A', b'f', b'_', b' ', b'x', b'\xff', b'\xc3\xa9',
              b'g:1-2-3', b'*00', b'\\', b'+']
     out = [b'', b'*', b'**', b'*00', b's:x', b's:x*', b's:x*zz', b's:x*1', b's:x*015', b's:x* 15 ', b's:x*0x15', b's:x*1_5',
-           b's:x*+15', b's:x*-15', b's:x*15*', b',*2C', b',,,*2C', b':*3A', b'g:1-1-1*00', b's:x*\xff', b's:x*_15']
+           b's:x*+15', b's:x*-15', b's:x*15*', b',*2C', b',,,*2C', b':*3A', b'g:1-1-1*00', b's:x*\xff', b's:x*_15',
+           b's:x*115', b's:x*AB15', b's:x*10015', b's:x*-EB', b's:x*-1EB']      # wider than a byte, low byte = the content's XOR
     # one or two byte-level edits of well-formed tag blocks (most stay parseable), then plain noise
     pool = [r for r in created if len(r) < 80] or [b's:x*15']
     while len(out) < n * 2 // 3:
@@ -598,6 +599,11 @@ def run(ctx, scale=1):
             f = rng.choice(ALL_FIELDS)
             base = [b'g:1-2-3' if f == 'group' else f'{CODES[f]}:v'.encode()]
             extras += [(base, junk, 0, kind), (base, junk, 1, kind)]
+    # very many unknown fields in front of / behind the known ones (a tag block has no field limit)
+    for nfields in (200, 254, 255, 256, 300, 1000):
+        base = [b's:STATION', b'g:1-2-3', b'c:1671533231']
+        junk = b','.join(b'x%d:%d' % (i, i) for i in range(nfields))
+        extras += [(base, junk, 0, 'unknown-code'), (base, junk, 1, 'unknown-code'), (base, junk, 3, 'unknown-code')]
     run_extras(ctx, extras)
 
     run_sentences(ctx, sentence_cases(ctx, created, ctx.budget(6, 40)))
